@@ -159,11 +159,30 @@ def accumulate(ctx, rr):
                 # a counter computed per request in one statement inside no loop is fine; any rebinding inside a loop resets the result
                 growing = any(isinstance(a, ast.AugAssign) and v in names_in_target(a.target) for a in P.own(u, ast.AugAssign)) or \
                     any(isinstance(m.func, ast.Attribute) and isinstance(m.func.value, ast.Name) and m.func.value.id == v for m in P.own(u, ast.Call))
-                bad = [b for b in inloop if growing and not isinstance(b, ast.For)]
+                def self_ref(b):
+                    val = getattr(b, 'value', None)
+                    return val is not None and any(isinstance(x, ast.Name) and x.id == v for x in ast.walk(val))
+                bad = [b for b in inloop if growing and not isinstance(b, ast.For) and not self_ref(b)]
                 rr.ob(ctx.where(u, c), '%s: the accumulator `%s` given to finalize() is never re-bound inside a loop' % (u.qual, v), ok=not bad)
                 for b in bad:
                     rr.fail(ctx.finding('R-ACCUMULATE', u, b, '%s re-binds its result accumulator `%s` inside a loop: what was collected before (pages, links, counts) is '
                                         'dropped from the final answer' % (u.qual, v)))
+    # every normal exit of a resumable request goes through `yield state.finalize(...)`: run_iterator() hands out the result
+    # of the last state it saw, which is None (or raises UnboundLocalError) when the generator just returns
+    nfin = 0
+    for u in P.units:
+        if u.cls != 'Traph' or not u.is_gen:
+            continue
+        fin = [c for c in P.own(u, ast.Call) if isinstance(c.func, ast.Attribute) and c.func.attr == 'finalize']
+        if not fin:
+            continue
+        nfin += 1
+        ok = must_pass(ctx, u, lambda root: any(isinstance(y, ast.Yield) and y.value is not None and any(c in fin for c in ast.walk(y.value)) for y in ast.walk(root)))
+        rr.ob(ctx.where(u), '%s: every normal exit passes through `yield state.finalize(...)`' % u.qual, ok=ok)
+        if not ok:
+            rr.fail(ctx.finding('R-ACCUMULATE', u, u.node, '%s can finish without yielding state.finalize(...): the synchronous wrapper then returns None (or fails) instead of the '
+                                'answer collected so far' % u.qual, stmt='%s: exit without finalize' % u.qual))
+    rr.require(nfin, 10, 'resumable requests with a finalize step')
     rr.require(n, 10, 'finalize() accumulators')
 
 
@@ -587,3 +606,174 @@ def nearest_we(ctx, rr):
                 rr.fail(ctx.finding('R-NEAREST-WE', u, a, '%s keeps walking up after binding `%s` from an ancestor and re-binds it at every webentity met: the outermost webentity '
                                     'wins instead of the nearest one (nested webentities are attributed to their parent)' % (u.qual, var)))
     rr.require(n, 3, 'upward walks (loops over node_parents_iter)')
+
+
+# ------------------------------------------------------------------------------------------------ R-NO-SWALLOW
+def _handler_reraises(P, h):
+    """does every path through the handler body end in a raise?"""
+    def ends(stmts):
+        if not stmts:
+            return False
+        last = stmts[-1]
+        if isinstance(last, ast.Raise):
+            return True
+        if isinstance(last, ast.If):
+            return bool(last.orelse) and ends(last.body) and ends(last.orelse)
+        return False
+    return ends(h.body)
+
+
+@rule('R-NO-SWALLOW')
+def no_swallow(ctx, rr):
+    """a refusal of the library (TraphException, the node usage / traversal exceptions) raised below a `try` is not caught and
+    dropped inside the package: the caller must see it.  May-raise sets are computed over the typed call graph."""
+    P = ctx.P
+    exc_classes = set()
+    for name, node in P.class_node.items():
+        if any(isinstance(b, ast.Name) and (b.id.endswith('Exception') or b.id.endswith('Error')) for b in node.bases):
+            exc_classes.add(name)
+    if len(exc_classes) < 4:
+        raise AnalysisError('R-NO-SWALLOW: only %d exception classes found in the package' % len(exc_classes))
+    direct = {}
+    for u in P.units:
+        s = set()
+        for r in P.own(u, ast.Raise):
+            e = r.exc
+            if isinstance(e, ast.Call):
+                e = e.func
+            if isinstance(e, ast.Name) and e.id in exc_classes:
+                s.add(e.id)
+        direct[u] = s
+    may = {u: set(v) for u, v in direct.items()}
+    changed = True
+    while changed:
+        changed = False
+        for u in P.units:
+            for t in P.calls[u]:
+                add = may.get(t, set()) - may[u]
+                if add:
+                    may[u] |= add
+                    changed = True
+    ntry = 0
+    for u in P.units:
+        for t in P.own(u, ast.Try):
+            ntry += 1
+            body_raises = set()
+            for s_ in t.body:
+                for x in ast.walk(s_):
+                    if isinstance(x, ast.Call) and P.owner_of(u.node, x) is u.node:
+                        for tg in P.targets(x):
+                            body_raises |= may.get(tg, set())
+                    if isinstance(x, ast.Raise) and P.owner_of(u.node, x) is u.node:
+                        e = x.exc.func if isinstance(x.exc, ast.Call) else x.exc
+                        if isinstance(e, ast.Name) and e.id in exc_classes:
+                            body_raises.add(e.id)
+            for h in t.handlers:
+                types = []
+                if h.type is None:
+                    types = None
+                else:
+                    for x in (h.type.elts if isinstance(h.type, ast.Tuple) else [h.type]):
+                        types.append(ast.unparse(x))
+                broad = types is None or any(x in ('Exception', 'BaseException') for x in types)
+                caught = set(body_raises) if broad else (body_raises & set(types))
+                ok = not caught or _handler_reraises(P, h)
+                rr.ob(ctx.where(u, h), '%s: handler `except %s` does not drop a library refusal (the guarded code can raise %s)'
+                      % (u.qual, ', '.join(types) if types else '<anything>', sorted(body_raises) or 'none'), ok=ok)
+                if not ok:
+                    rr.fail(ctx.finding('R-NO-SWALLOW', u, h, '%s catches %s raised by the code it guards and does not re-raise it: the refusal (unknown prefix, wrong owner, '
+                                        'corrupted file, invalid pointer) is silently turned into a normal answer' % (u.qual, sorted(caught))))
+    rr.require(ntry, 2, 'try statements')
+    rr.info['exception_classes'] = sorted(exc_classes)
+    rr.info['functions_that_may_refuse'] = sum(1 for v in may.values() if v)
+
+
+# ------------------------------------------------------------------------------------------------ R-WRAPPERS
+@rule('R-WRAPPERS')
+def wrappers(ctx, rr):
+    """the synchronous twin of a resumable request forwards every argument to the parameter of the same name: a swapped or
+    dropped switch makes the two entry points of one request answer differently"""
+    from ..dataflow import bound_args
+    P = ctx.P
+    n = 0
+    for name, u in P.require_class('Traph').items():
+        if u.is_gen:
+            continue
+        for c in P.own(u, ast.Call):
+            if not (isinstance(c.func, ast.Name) and c.func.id == 'run_iterator' and c.args and isinstance(c.args[0], ast.Call)):
+                continue
+            inner = c.args[0]
+            tg = [t for t in P.targets(inner) if t.cls == 'Traph' and t.is_gen]
+            if len(tg) != 1:
+                continue
+            g = tg[0]
+            n += 1
+            mine = [p for p in u.call_params]
+            bad = []
+            forwarded = set()
+            for pname, expr in bound_args(g, inner):
+                if isinstance(expr, ast.Name) and expr.id in mine:
+                    forwarded.add(expr.id)
+                    if pname in mine and expr.id != pname:
+                        bad.append('`%s` is passed as `%s`' % (expr.id, pname))
+                elif pname in mine and not (isinstance(expr, ast.Name) and expr.id == pname):
+                    # the twin has the switch but the wrapper passes something else
+                    if not any(isinstance(x, ast.Name) and x.id == pname for x in ast.walk(expr)):
+                        bad.append('`%s` of the request is replaced by `%s`' % (pname, ast.unparse(expr)[:30]))
+            if g.name == name + '_iter':
+                for p in mine:
+                    if p in g.call_params and p not in forwarded and not any(pn == p for pn, _ in bound_args(g, inner)):
+                        bad.append('`%s` is not forwarded' % p)
+            rr.ob(ctx.where(u, c), '%s forwards its arguments to %s under their own names' % (u.qual, g.qual), ok=not bad)
+            for b in bad:
+                rr.fail(ctx.finding('R-WRAPPERS', u, c, '%s -> %s: %s: the synchronous and the resumable entry point of the same request answer differently' % (u.qual, g.qual, b)))
+    rr.require(n, 10, 'run_iterator wrappers')
+
+
+# ------------------------------------------------------------------------------------------------ R-NODE-ALIAS
+@rule('R-NODE-ALIAS')
+def node_alias(ctx, rr):
+    """the trie walks hand out ONE node object that they re-read for every block: a consumer that keeps the object (in a
+    list, dict, set, tuple, attribute) instead of what it needs from it ends up with N references to the last block"""
+    P = ctx.P
+    n = 0
+    for u in P.units:
+        for lp in P.own(u, ast.For):
+            if not (isinstance(lp.iter, ast.Call) and any(t.is_gen and t.cls in ('LRUTrie', 'Traph') for t in P.targets(lp.iter))):
+                continue
+            # loop variables that are trie nodes
+            nodes = set()
+            for nm in ast.walk(lp.target):
+                if isinstance(nm, ast.Name) and any(z[0] == 'inst' and z[1] == 'LRUTrieNode' for z in P.ev(u, nm)):
+                    nodes.add(nm.id)
+            if not nodes:
+                continue
+            n += 1
+            bad = []
+
+            def holds(e):
+                """e evaluates to something that contains the node object itself"""
+                if isinstance(e, ast.Name):
+                    return e.id in nodes
+                if isinstance(e, (ast.Tuple, ast.List, ast.Set)):
+                    return any(holds(x) for x in e.elts)
+                if isinstance(e, ast.Dict):
+                    return any(holds(x) for x in e.values if x is not None)
+                return False
+            for x in ast.walk(lp):
+                if P.owner_of(u.node, x) is not u.node:
+                    continue
+                if isinstance(x, ast.Call) and isinstance(x.func, ast.Attribute) and x.func.attr in ('append', 'add', 'insert', 'extend', 'setdefault', 'update', 'appendleft') \
+                        and any(holds(a) for a in x.args) and not any(t.cls for t in P.targets(x)):
+                    bad.append(x)
+                if isinstance(x, ast.Assign) and holds(x.value):
+                    for t in x.targets:
+                        if isinstance(t, ast.Subscript) or (isinstance(t, ast.Attribute) and self_attr(t)):
+                            bad.append(x)
+                if isinstance(x, ast.Call) and isinstance(x.func, ast.Attribute) and x.func.attr in ('heappush', 'heappushpop') and any(holds(a) for a in x.args[1:]):
+                    bad.append(x)
+            rr.ob(ctx.where(u, lp), '%s keeps no reference to the shared traversal node `%s` beyond the iteration' % (u.qual, ', '.join(sorted(nodes))), ok=not bad)
+            for x in bad:
+                rr.fail(ctx.finding('R-NODE-ALIAS', u, x, '%s stores the traversal node object handed out by `%s`: the walk re-reads that one object for every block, so every stored '
+                                    'reference ends up describing the last block visited' % (u.qual, ast.unparse(lp.iter)[:50])))
+    rr.require(n, 15, 'loops over a trie walk that hand out the traversal node')
